@@ -54,6 +54,27 @@ impl RunOut {
             detail,
         });
     }
+    /// Digest of everything observable about the run (determinism self-test).
+    pub fn digest(&self) -> u64 {
+        let mut h = fnv(self.log_hash ^ 0x5bd1e995, &self.shape.to_le_bytes());
+        h = fnv(h, &self.interleaving.to_le_bytes());
+        h = fnv(h, &self.deliveries.to_le_bytes());
+        h = fnv(h, &self.sim_ns.to_le_bytes());
+        for (k, v) in &self.probes {
+            h = fnv(fnv(h, k.as_bytes()), &v.to_le_bytes());
+        }
+        for (k, v) in &self.faults {
+            h = fnv(fnv(h, k.as_bytes()), &v.to_le_bytes());
+        }
+        for v in &self.violations {
+            h = fnv(fnv(fnv(h, v.property.as_bytes()), v.clause.as_bytes()), v.detail.as_bytes());
+        }
+        for l in &self.scenario {
+            h = fnv(h, l.as_bytes());
+        }
+        h
+    }
+
     pub fn note(&mut self, s: String) {
         self.log_hash = fnv(self.log_hash, s.as_bytes());
         if self.scenario.len() < 400 {
@@ -148,6 +169,8 @@ pub struct Mix {
     pub req: ReqKnobs,
     pub sign: SignKnobs,
     pub permute_pairs: bool,
+    /// also validate every delivery alone with an immediate provider (C14's control twin)
+    pub control_twin: bool,
 }
 
 impl Mix {
@@ -196,6 +219,7 @@ impl Mix {
                 honour_requirements: true,
             },
             permute_pairs: true,
+            control_twin: false,
         }
     }
 }
@@ -214,6 +238,7 @@ pub struct DeliveryCtx<'a> {
     pub accounts: &'a [Account],
     pub events: &'a [libi::Event],
     pub logs: &'a [crate::logger::Rec],
+    pub control: Option<&'a ValOut>,
 }
 
 pub struct Planned {
@@ -541,6 +566,11 @@ pub fn execute_and_judge(t: &mut Tape, mix: &Mix, accounts: &[Account], nodes: &
             continue;
         }
         let my_events: Vec<libi::Event> = events.iter().filter(|e| e.val == vi).cloned().collect();
+        let control = if mix.control_twin && matches!(o, ValOut::Ok(_) | ValOut::Err(_)) {
+            p.wire.to_request().ok().map(|req| libi::validate_control(req, node, p.now_ns, accounts, &p.script, cache_level))
+        } else {
+            None
+        };
         let cx = DeliveryCtx {
             ix: vi,
             msg: &p.msg,
@@ -555,6 +585,7 @@ pub fn execute_and_judge(t: &mut Tape, mix: &Mix, accounts: &[Account], nodes: &
             accounts,
             events: &my_events,
             logs: &logs,
+            control: control.as_ref(),
         };
         common_probes(&cx, out);
         judge(&cx, out);
